@@ -1,0 +1,98 @@
+//! Verification hooks (feature `verif-hooks`, default off, add-only).
+//!
+//! Wrappers that run the private query-grouping step of the multi-opening argument
+//! (`kzg/utils.rs: construct_intermediate_sets`) on prover queries, verifier queries and
+//! abstract `(commitment id, point, eval)` queries, and return its result as plain data.
+//! Nothing else becomes public.
+
+use std::hash::Hash;
+
+use ff::{Field, PrimeField};
+
+use super::utils::construct_intermediate_sets;
+use crate::poly::{
+    commitment::PolynomialCommitmentScheme, query::Query, CommitmentLabel, Error, ProverQuery,
+    VerifierQuery,
+};
+
+/// Plain copy of one `CommitmentData`: `(first, set_index, point_indices, evals)` where
+/// `first` is the index of the first query whose commitment equals this one.
+pub type VerifCommitmentData<F> = (usize, usize, Vec<usize>, Vec<F>);
+
+/// Plain copy of the result of `construct_intermediate_sets`: commitment data in the
+/// order of the commitment map, and the point sets.
+pub type VerifIntermediateSets<F> = (Vec<VerifCommitmentData<F>>, Vec<Vec<F>>);
+
+/// An abstract query: the commitment is an identifier compared by value.
+#[derive(Clone, Debug)]
+struct AbstractQuery<F> {
+    commitment: usize,
+    point: F,
+    eval: F,
+}
+
+impl<F: Field> Query<F> for AbstractQuery<F> {
+    type Commitment = usize;
+    type Eval = F;
+
+    fn get_point(&self) -> F {
+        self.point
+    }
+    fn get_eval(&self) -> F {
+        self.eval
+    }
+    fn get_commitment(&self) -> usize {
+        self.commitment
+    }
+    fn get_commitment_label(&self) -> CommitmentLabel {
+        CommitmentLabel::NoLabel
+    }
+}
+
+fn run<F: Field + Hash + Ord, Q: Query<F, Eval = F>>(
+    queries: &[Q],
+) -> Result<VerifIntermediateSets<F>, Error> {
+    let (commitment_map, point_sets) = construct_intermediate_sets(queries)?;
+    Ok((
+        commitment_map
+            .into_iter()
+            .map(|d| {
+                let first = queries
+                    .iter()
+                    .position(|q| q.get_commitment() == d.commitment)
+                    .unwrap_or(usize::MAX);
+                (first, d.set_index, d.point_indices, d.evals)
+            })
+            .collect(),
+        point_sets,
+    ))
+}
+
+/// The real `construct_intermediate_sets` on abstract queries `(commitment id, point, eval)`.
+pub fn verif_sets_abstract<F: Field + Hash + Ord>(
+    queries: &[(usize, F, F)],
+) -> Result<VerifIntermediateSets<F>, Error> {
+    let qs: Vec<AbstractQuery<F>> = queries
+        .iter()
+        .map(|&(commitment, point, eval)| AbstractQuery {
+            commitment,
+            point,
+            eval,
+        })
+        .collect();
+    run(&qs)
+}
+
+/// The real `construct_intermediate_sets` on prover queries.
+pub fn verif_sets_prover<F: PrimeField + Hash + Ord>(
+    queries: &[ProverQuery<'_, F>],
+) -> Result<VerifIntermediateSets<F>, Error> {
+    run(queries)
+}
+
+/// The real `construct_intermediate_sets` on verifier queries.
+pub fn verif_sets_verifier<F: PrimeField + Hash + Ord, CS: PolynomialCommitmentScheme<F>>(
+    queries: &[VerifierQuery<'_, F, CS>],
+) -> Result<VerifIntermediateSets<F>, Error> {
+    run(queries)
+}
